@@ -14,7 +14,8 @@ ENGINE = "E1"
 TECHNIQUE = "exhaustive enumeration of the event frame space and of map contents through the real decoder vs a reference event decoder"
 RULE = ("all event-space frames (bit16=0) without a map; device/instance frames x maps {no entry, other instance only, "
         "type t for t in 0..31} built via int / DeviceShort / InstanceNumber / module arguments and via initial=; "
-        "retry_decode of every ambiguous event vs direct decode; distinct = distinct (class, scheme, map kind) observed")
+        "retry_decode of every ambiguous event vs direct decode; every sequence of <= 3 (thorough 4) registrations / clear() on one mapper "
+        "(2 keys x 4 types x 3 argument forms) against a plain dict - the latest registration of a key is in force; distinct = distinct (class, scheme, map kind) observed")
 ASSUMPTIONS = [
     "event scheme table and field positions from IEC 62386-103 Table 3; push-button codes from -301 Table 2; occupancy flag bits from -303 (upper six bits must be zero); light = 10-bit number (-304)",
     "instance types without an implementing class decode to UnknownEvent carrying type and data",
@@ -44,7 +45,33 @@ def shards(tier):
         for t in range(32):
             out.append(("map", t, [0, 21, 42, 63], [0, 5, 10, 15, 20, 25, 30, 31]))
     out.append(("forms",))
+    for first in range(len(MAP_OPS)):
+        out.append(("mapops", first, 3 if tier == "quick" else 4))
     return out
+
+
+# operation alphabet on ONE mapper object: registrations of two keys with four types in every argument form, and clear()
+MAP_KEYS = [(5, 9), (63, 31)]
+MAP_OPS = [("add", k, t, f) for k in range(2) for t in (1, 3, 4, 6) for f in ("int", "objs", "module")] + [("clear",)]
+
+
+def apply_map_op(m, ref, op):
+    from dali.address import DeviceShort, InstanceNumber
+    import importlib
+    if op[0] == "clear":
+        m.clear()
+        ref.clear()
+        return
+    _, k, t, f = op
+    s, i = MAP_KEYS[k]
+    if f == "int":
+        m.add_type(short_address=s, instance_number=i, instance_type=t)
+    elif f == "objs":
+        m.add_type(short_address=DeviceShort(s), instance_number=InstanceNumber(i), instance_type=t)
+    else:
+        it = importlib.import_module("dali.device." + MODTYPES[t]) if t in MODTYPES else t
+        m.add_type(short_address=DeviceShort(s), instance_number=i, instance_type=it)
+    ref[(s, i)] = t                 # reference model: a plain dict, the latest registration of a key is the one in force
 
 
 def build_map(t, form, shorts, inums):
@@ -79,8 +106,8 @@ def build_map(t, form, shorts, inums):
     return m, t
 
 
-def check_event(res, v, dmap, maptype, mk, from_frame, FF, key="decode"):
-    case = {"t": key, "v": v, "map": mk}
+def check_event(res, v, dmap, maptype, mk, from_frame, FF, key="decode", case=None):
+    case = case or {"t": key, "v": v, "map": mk}
     try:
         d = from_frame(FF(24, v), dev_inst_map=dmap)
         got = R.describe(d)
@@ -179,6 +206,43 @@ def run_shard(shard):
                 if m.mapping != {} or m.get_type(short_address=5, instance_number=9) is not None:
                     add_violation(res, "C12:clear", "clear() left entries", case)
         sample(res, {"forms": FORMS, "types": "0..31"})
+    elif k == "mapops":
+        # every sequence of <= depth operations on one mapper (first operation fixed by the shard) against a plain dict;
+        # after every operation: mapping, get_type and the decode of one frame per key must follow the reference
+        import itertools
+        from dali.device.helpers import DeviceInstanceTypeMapper
+        _, first, depth = shard
+        for L in range(1, depth + 1):
+            for rest in itertools.product(range(len(MAP_OPS)), repeat=L - 1):
+                ops = [MAP_OPS[first]] + [MAP_OPS[j] for j in rest]
+                m, ref = DeviceInstanceTypeMapper(), {}
+                case = {"t": "mapops", "ops": [list(o) for o in ops]}
+                for n, op in enumerate(ops):
+                    try:
+                        apply_map_op(m, ref, op)
+                    except Exception as e:
+                        add_violation(res, "C12:mapops-raises", f"{ops[:n + 1]}: {e!r}", case)
+                        break
+                    if n < len(ops) - 1 and L > 1 and n < L - 2:
+                        continue        # prefixes were checked as shorter sequences
+                    if dict(m.mapping) != ref:
+                        add_violation(res, "C12:mapops-mapping", f"after {ops[:n + 1]}: mapping {dict(m.mapping)}, reference {ref}", case)
+                    for (s_, i_) in MAP_KEYS:
+                        exp = ref.get((s_, i_))
+                        g = m.get_type(short_address=s_, instance_number=i_)
+                        if g != exp:
+                            add_violation(res, "C12:mapops-get_type", f"after {ops[:n + 1]}: get_type({s_},{i_}) -> {g}, reference {exp}", case)
+                        for data in (2, 0x155):
+                            v = (s_ << 17) | (1 << 15) | (i_ << 10) | data
+                            d, got = check_event(res, v, m, exp, f"ops{len(ops)}", from_frame, FF, "mapops", case)
+                            if got:
+                                res["distinct"].add((got[1], "mapops", exp))
+                            amb = from_frame(FF(24, v), dev_inst_map=None)
+                            r = amb.retry_decode(m)
+                            if (r is None) != (exp is None) or (r is not None and (d is None or R.describe(r) != got)):
+                                add_violation(res, "C12:mapops-retry", f"after {ops[:n + 1]}: retry_decode({v:#08x}) -> {r}, direct decode {d}", case)
+                res["evaluations"] += 1
+        sample(res, {"mapops_first": list(MAP_OPS[first]), "depth": depth})
     return res
 
 
@@ -197,6 +261,10 @@ def replay(case):
         if mt == "nomap":
             mt = "noentry"
         return run_shard(("map", mt, [s], [i]))["violations"]
+    elif t == "mapops":
+        ops = [tuple(o) for o in case["ops"]]
+        vs = run_shard(("mapops", MAP_OPS.index(ops[0]), len(ops)))["violations"]
+        return [x for x in vs if x["case"].get("ops") == case["ops"]] or vs
     else:
         return run_shard(("forms",))["violations"]
     return res["violations"]
